@@ -181,8 +181,20 @@ def allowed_destructive(S, f, n, k):
     if f.id == S.m["removeOldFiles"].id and k == "remove":
         a = n.get("args", [])
         v = deref_local(f, a[0]) if a else None
-        if is_call(v, ("first", "front", "constFirst", "takeFirst", "last", "back", "constLast", "takeLast")):
-            lst = container_origin(f, skip_copies(v).get("obj"))
+        vv = skip_copies(v)
+        elem_obj = None
+        if is_call(vv, ("first", "front", "constFirst", "takeFirst", "last", "back", "constLast", "takeLast", "at", "value", "operator[]")):
+            elem_obj = vv.get("obj") if vv.get("ck") == "member" else (vv.get("args") or [None])[0]
+        elif isinstance(vv, dict) and vv.get("k") == "call" and vv.get("op") in ("[]", "*") and vv.get("args"):
+            elem_obj = vv["args"][0]
+        elif isinstance(vv, dict) and vv.get("k") == "ref":
+            # range-for variable over the candidate list
+            for l in find_loops(f):
+                if l.get("k") == "rangefor" and l.get("var", {}).get("decl") == vv.get("decl"):
+                    elem_obj = l.get("range")
+        if elem_obj is not None:
+            lst = container_origin(f, skip_copies(elem_obj))
+            lst = deref_local(f, lst)
             if is_call(lst, RP + "::findRotatedFiles"):
                 return True, "an element of findRotatedFiles()"
         return False, "remove(%s)" % describe(v)
